@@ -163,6 +163,50 @@ def oracle(abbr, cfg, meta, r):
     return None
 
 
+# ---------------------------------------------------------------- HTML side: tag chunks (format_events)
+def chunk_tags(events):
+    """open/close events read off the chunks pushed by the formatter (one chunk = one output.text call)."""
+    out = []
+    for e in events:
+        if e[0] == 'text':
+            s = e[1]
+            if len(s) >= 2 and s[0] == '<':
+                if s[1] == '/':
+                    out.append(('close', s[2:-1]))
+                elif s[1] != '!':
+                    out.append(('open', s[1:]))
+    return out
+
+
+def denoted_events(tree):
+    out = []
+    for name, el, cs, kids in tree:
+        out.append(('open', name))
+        if not (el.self_close and el.text is None and not kids):
+            out.extend(denoted_events(kids))
+            out.append(('close', name))
+    return out
+
+
+def oracle_html(abbr, cfg, meta, r):
+    if r[0] != 'ok':
+        return 'expand did not return a string: %r' % (r,)
+    got = chunk_tags(r[2])
+    if got != meta['events']:
+        k = 0
+        while k < min(len(got), len(meta['events'])) and got[k] == meta['events'][k]:
+            k += 1
+        return 'tag chunks of the HTML output differ from the open/close events of the denoted tree at %d: got %r, denoted %r' % (
+            k, got[k:k + 3], meta['events'][k:k + 3])
+    return None
+
+
+HTML_OPTS = [{}, {'output.format': False}, {'output.selfClosingStyle': 'xhtml'}, {'output.selfClosingStyle': 'xml', 'output.indent': '  '},
+             {'output.formatLeafNode': True, 'output.newline': '\r\n'}, {'output.inlineBreak': 1, 'output.baseIndent': '  '},
+             {'output.formatSkip': ['section', 'p'], 'output.formatForce': ['em', 'span']}, {'output.inlineBreak': 0, 'output.indent': ''},
+             {'output.attributeQuotes': 'single', 'output.compactBoolean': True, 'output.reverseAttributes': True}]
+
+
 # ---------------------------------------------------------------- generators
 TEXT_FIRST = 'abcxyzTQ09é日'
 TEXT_REST = TEXT_FIRST + '      ,;:!?-_()\'"@&*+=/~[].#%'
@@ -294,7 +338,7 @@ def gen(ctx):
         abbr = g.render(stmt)
         tree = g.unroll(g.denote_stmt(stmt))
         lines = expected_lines(tree, syntax, indent)
-        cases.append((abbr, cfg_of(syntax, indent), {'lines': lines, 'tree': True}))
+        cases.append((abbr, cfg_of(syntax, indent), {'lines': lines, 'tree': True, 'events': denoted_events(tree)}))
         ctx.cover('gen:' + bucket)
         ctx.cover('syntax:' + syntax)
         ctx.cover('indent:%r' % indent)
@@ -392,7 +436,8 @@ RULE = ('abbreviations generated as an AST (elements with ids, classes, attribut
         'self-closing, nameless elements, groups, repeaters), rendered to text; exhaustive operator skeletons up to the stated size, '
         'every element shape x syntax as leaf/parent/child, random wide and deep statements; x haml/pug/slim x 8 indent strings. '
         'Oracle: output lines = lines denoted by the AST (indent^depth ++ head ++ value; multi-line text one line per text line one '
-        'level deeper with the syntax marks); tree read off the indentation = tree of the HTML output. Non-trivial = at least two '
+        'level deeper with the syntax marks); tree read off the indentation = tree of the HTML output; tag chunks of the HTML formatter '
+        '(callback events) = open/close events of the denoted tree under 9 option sets. Non-trivial = at least two '
         'lines; distinct by (abbreviation, syntax, indent). A second stream (text-only nodes, snippets, numbering, fields, all '
         'output options) is compared model vs implementation only.')
 
@@ -402,7 +447,7 @@ def attach_meta(ctx, cases):
     look = {(a, canon_cfg(c)): m for a, c, m in cases}
     for v in ctx.violations:
         rp = v.get('replay') or {}
-        if rp.get('component') == 'C15' and 'abbr' in rp:
+        if rp.get('component') in ('C15', 'C15html') and 'abbr' in rp:
             m = look.get((rp['abbr'], canon_cfg(rp['config'])))
             if m is not None:
                 rp['meta'] = m
@@ -417,10 +462,15 @@ def run(ctx):
     ctx.cov['exhaustive_skeleton_units'] = '1-2 all, 3 one third (by seed)' if ctx.tier == 'quick' else '1-3 all, 4 one sixth (by seed)'
     cases = gen(ctx)
     impl = run_cases(ctx, model, cases, 'C15', oracle)
-    attach_meta(ctx, cases)
     # callback events (offset, line, column of every push) on a subset
     sub = cases[:: max(1, len(cases) // (800 if ctx.tier == 'quick' else 8000))]
     run_cases(ctx, model, sub, 'C15ev', None, mode='events')
+    # HTML side of the last clause: tag chunks of the HTML formatter = open/close events of the denoted tree
+    # (oracle on the implementation's callback chunks) and chunk-exact model/implementation comparison
+    hsub = [(a, {'syntax': 'html', 'options': dict(HTML_OPTS[k % len(HTML_OPTS)])}, m)
+            for k, (a, cf, m) in enumerate(cases[:: max(1, len(cases) // (1200 if ctx.tier == 'quick' else 12000))]) if 'events' in m]
+    run_cases(ctx, model, hsub, 'C15html', oracle_html, mode='events')
+    attach_meta(ctx, cases + hsub)
     tie = gen_tie(ctx)
     run_cases(ctx, model, tie, 'C15tie', None)
     shown = 0
@@ -435,9 +485,19 @@ def replay(ctx, obj):
     if 'abbr' not in rp:
         print('replay names a broken obligation, no input: %s' % str(rp)[:300])
         return 1
-    r = impl_expand(rp['abbr'], rp['config'])
-    meta = rp.get('meta') or {'tree': True}
-    bad = oracle(rp['abbr'], rp['config'], meta, r)
+    if rp.get('component') == 'C15html':
+        from markup_util import impl_events
+        r = impl_events(rp['abbr'], rp['config'])
+        meta = rp.get('meta')
+        if meta is None:
+            print('no recorded denotation for this input')
+            return 1
+        meta['events'] = [tuple(e) for e in meta['events']]
+        bad = oracle_html(rp['abbr'], rp['config'], meta, r)
+    else:
+        r = impl_expand(rp['abbr'], rp['config'])
+        meta = rp.get('meta') or {'tree': True}
+        bad = oracle(rp['abbr'], rp['config'], meta, r)
     print('expand(%r, %r) -> %r' % (rp['abbr'], rp['config'], r))
     print('property %s' % ('FAILS: ' + bad if bad else 'holds on this input'))
     return 1 if bad else 0
